@@ -142,3 +142,176 @@ def check_trace(surfs, recs, scale_tol=1e-7):
             bad.append({'surface': si + 1, 'kind': 'opl', 'shape': s['shape'][0], 'detail': f'optical path increment {dopd!r} != n*length {abs(s["n1"])*seg!r}'})
         prev = rec
     return bad
+
+
+# --------------------------------------------------------------------------
+# C04: matrix optics, independent of optiland's trace-based method
+# --------------------------------------------------------------------------
+def _T(t):
+    return np.array([[1.0, t], [0.0, 1.0]])
+
+
+def _S(s):
+    c = 0.0 if math.isinf(s['R']) else 1.0 / s['R']
+    if s['refl']:
+        return np.array([[1.0, 0.0], [-2.0 * c, -1.0]])
+    return np.array([[1.0, 0.0], [-(s['npost'] - s['npre']) * c / s['npost'], s['npre'] / s['npost']]])
+
+
+def abcd_quantities(ps, ap_type, ap_value, field_type, max_field):
+    """ps: psurf dicts (index 0 = object).  Returns dict of matrix-optics values."""
+    real = ps[1:]
+    z1 = real[0]['z']
+    n = len(real)
+    stop = next((i for i, s in enumerate(real) if s['stop']), None)
+    # accumulated matrices from the plane z = z1 (before refraction at surface 1)
+    M = np.eye(2)
+    z = z1
+    after = []        # matrix up to and including refraction at surface k
+    before = []       # matrix up to arrival at surface k (before refraction)
+    for s in real:
+        M = _T(s['z'] - z) @ M
+        before.append(M.copy())
+        M = _S(s) @ M
+        after.append(M.copy())
+        z = s['z']
+    out = {}
+    Msys = after[-1]
+    A, B, Cc, D = Msys[0, 0], Msys[0, 1], Msys[1, 0], Msys[1, 1]
+    out['f2'] = -1.0 / Cc if Cc != 0 else float('inf')
+    out['F2'] = -A / Cc if Cc != 0 else float('inf')      # relative to the last (image) surface
+    out['P2'] = out['F2'] - out['f2']
+    det = A * D - B * Cc
+    # reversed system (seen from image space): M' = J M^-1 J = 1/det [[D, B],[C, A]]
+    # optiland's reverse traces start 1 unit before the image surface and end after surface 1
+    out['f1'] = det / Cc if Cc != 0 else float('inf')
+    out['F1'] = D / Cc if Cc != 0 else float('inf')
+    out['P1'] = out['F1'] - out['f1']
+    out['N1'] = out['P1'] + out['f1'] + out['f2']
+    out['N2'] = out['P2'] + out['f1'] + out['f2']
+    if stop is not None:
+        Fm = before[stop]                    # plane z1 -> stop plane (before the stop refracts)
+        out['EPL'] = z1 + (Fm[0, 1] / Fm[0, 0] if Fm[0, 0] != 0 else float('inf'))
+        if stop == n - 1:
+            out['XPL'] = float('nan')
+        else:
+            Bm = np.eye(2)
+            z = real[stop]['z']
+            Bm = _S(real[stop])
+            for s in real[stop + 1:]:
+                Bm = _S(s) @ _T(s['z'] - z) @ Bm
+                z = s['z']
+            # ray from the stop centre: (0, u) BEFORE the stop refracts gives the same centre
+            out['XPL'] = -Bm[0, 1] / Bm[1, 1] if Bm[1, 1] != 0 else float('inf')
+        if stop == n - 2:
+            out['XPL'] = real[-2]['z'] - real[-1]['z']
+    obj = ps[0]
+    if ap_type == 'EPD':
+        out['EPD'] = ap_value
+    elif ap_type == 'imageFNO':
+        out['EPD'] = out['f2'] * (-1) ** sum(1 for s in ps if s['refl']) / ap_value
+    elif ap_type == 'objectNA' and 'EPL' in out:
+        u0 = math.asin(ap_value / obj['npost'])
+        out['EPD'] = 2 * (out['EPL'] - obj['z']) * math.tan(u0)
+    # marginal ray
+    if 'EPD' in out and 'EPL' in out:
+        if math.isinf(obj['z']):
+            v = np.array([out['EPD'] / 2, 0.0])
+        else:
+            u = out['EPD'] / (2 * (out['EPL'] - obj['z']))
+            v = np.array([(z1 - obj['z']) * u, u])       # at the plane z1
+        out['marginal'] = [list(m @ v) for m in after]
+        # chief ray: through the centre of the stop, object-space field = max_field
+        if stop is not None:
+            Fm = before[stop]
+            if field_type == 'angle':
+                u = math.tan(math.radians(max_field))
+                y1 = -Fm[0, 1] / Fm[0, 0] * u if Fm[0, 0] != 0 else float('nan')
+            else:
+                # from the object point of height max_field through the entrance pupil centre
+                if math.isinf(obj['z']):
+                    y1, u = float('nan'), float('nan')
+                else:
+                    u = (0 - max_field) / (out['EPL'] - obj['z'])
+                    y1 = max_field + (z1 - obj['z']) * u
+            out['chief'] = [list(m @ np.array([y1, u])) for m in after]
+    return out
+
+
+def check_paraxial(ps, spec, impl, rtol=1e-7):
+    """impl: result of paraxcorr.impl_queries.  Returns list of violation dicts."""
+    bad = []
+    ap_type, ap_value = spec['aperture']
+    mf = max(f[0] for f in spec['fields'])
+    try:
+        q = abcd_quantities(ps, ap_type, ap_value, spec['field_type'], mf)
+    except Exception as e:  # noqa
+        return [{'kind': 'oracle-error', 'detail': repr(e)}]
+
+    def cmp(name, a, b, sign_free=False):
+        if isinstance(a, tuple) or a is None or b is None:
+            return
+        if not (math.isfinite(a) and math.isfinite(b)):
+            return
+        tol = rtol * (1 + abs(a) + abs(b))
+        if abs(a - b) <= tol or (sign_free and abs(a + b) <= tol):
+            return
+        bad.append({'kind': 'paraxial', 'quantity': name, 'implementation': a, 'matrix_optics': b})
+    odd_mirrors = sum(1 for s in ps if s['refl']) % 2 == 1
+    for name in ('f2', 'F2', 'P2', 'f1', 'F1', 'P1', 'N1', 'N2', 'EPL', 'XPL', 'EPD'):
+        if name in q and name in impl:
+            if odd_mirrors and name in ('P2', 'N1', 'N2'):
+                continue      # sign convention of image-space distances after an odd number of mirrors is not fixed by the property
+            if odd_mirrors and name == 'f2':
+                cmp(name, impl[name], -q[name])     # index sign reversal
+                continue
+            cmp(name, impl[name], q[name])
+    if 'f2' in q and 'EPD' in q and not isinstance(impl.get('FNO'), tuple) and ap_type != 'imageFNO':
+        cmp('FNO', impl['FNO'], (-1 if odd_mirrors else 1) * q['f2'] / q['EPD'])
+    mr = impl.get('marginal_ray')
+    if mr and mr[0] != 'err' and 'marginal' in q and not isinstance(impl.get('EPD'), tuple):
+        ys, us = mr
+        for k, (y, u) in enumerate(q['marginal']):
+            cmp(f'marginal_y[{k+1}]', ys[k + 1], y)
+            cmp(f'marginal_u[{k+1}]', us[k + 1], u)
+        if 'XPL' in q and math.isfinite(q['XPL']):
+            cmp('XPD', impl.get('XPD'), 2 * (q['marginal'][-1][0] + q['marginal'][-1][1] * q['XPL']))
+        n0, nl = ps[0]['npost'], ps[-1]['npost']
+        if q['marginal'][-1][1] != 0 and not math.isinf(ps[0]['z']):
+            u_obj = us[0]
+            cmp('magnification', impl.get('magnification'), n0 * u_obj / (nl * q['marginal'][-1][1]))
+    cr = impl.get('chief_ray')
+    if cr and cr[0] != 'err' and 'chief' in q and mf != 0:
+        ys, us = cr
+        # overall sign convention of the chief ray is not part of the property: compare up to one global sign
+        sgn = None
+        for k, (y, u) in enumerate(q['chief']):
+            for a, b, nm in ((ys[k + 1], y, f'chief_y[{k+1}]'), (us[k + 1], u, f'chief_u[{k+1}]')):
+                if not (math.isfinite(a) and math.isfinite(b)) or abs(b) < 1e-12:
+                    continue
+                if sgn is None:
+                    sgn = 1.0 if abs(a - b) <= abs(a + b) else -1.0
+                cmp(nm, a, sgn * b)
+        # stop centre
+        stop = next((i for i, s in enumerate(ps) if s['stop']), None)
+        if stop is not None and abs(ys[stop]) > 1e-7 * (1 + max(abs(v) for v in ys)):
+            bad.append({'kind': 'paraxial', 'quantity': 'chief ray height at the stop', 'implementation': ys[stop], 'matrix_optics': 0.0})
+    # Lagrange invariant at every surface from the RETURNED rays
+    if mr and cr and mr[0] != 'err' and cr[0] != 'err' and mf != 0:
+        ya, ua = mr
+        yb, ub = cr
+        sign = 1.0
+        H0 = None
+        for k in range(1, len(ps)):
+            s = ps[k]
+            if s['refl']:
+                sign = -sign
+            H = sign * s['npost'] * (yb[k] * ua[k] - ya[k] * ub[k])
+            if not math.isfinite(H):
+                continue
+            if H0 is None:
+                H0 = H
+            elif abs(H - H0) > 1e-7 * (1 + abs(H0)):
+                bad.append({'kind': 'paraxial', 'quantity': f'Lagrange invariant at surface {k}', 'implementation': H, 'matrix_optics': H0})
+                break
+    return bad
